@@ -1,5 +1,5 @@
 From Coq Require Extraction ExtrOcamlBasic.
-From OxiVerif Require Import Base.Conv DD.Table DD.TableExtra DD.Sem Num.I64 DD.FamSpec DD.ZbddOps DD.ZbddVars Mgr.SortOrder Mgr.LevelSwap Mgr.LevelSwapC.
+From OxiVerif Require Import Base.Conv DD.Table DD.TableExtra DD.Sem Num.I64 DD.FamSpec DD.ZbddOps DD.ZbddVars Mgr.SortOrder Mgr.LevelSwap Mgr.LevelSwapC DD.BuildCanon.
 Extraction Language OCaml.
 Extraction "model.ml" conv_anchor
   Table.sem_edge Table.wf_b TableExtra.terms_kind_b TableExtra.wf_full_b Table.perm_inverse_b Table.node_ok_b Table.unique_nodes_b
@@ -15,4 +15,5 @@ Extraction "model.ml" conv_anchor
   ZbddVars.ztaut_chain ZbddVars.zadd_vars ZbddVars.f_powerset
   LevelSwap.level_swap LevelSwap.set_var_order_model SortOrder.sort_order SortOrder.bubble_sort
   LevelSwapC.level_swap_c LevelSwapC.set_var_order_model_c
+  BuildCanon.build_kind BuildCanon.lvl_fun BuildCanon.canonical_count BuildCanon.cfun_of
   Table.mkSnap Table.mkNode Table.mkEdge Table.nlevels Table.edge_eqb.
